@@ -27,6 +27,7 @@ type LeveldbDiskStorage struct {
 // Create a new table, destroying any existing table.
 func (f LeveldbDiskStorage) Create(tbl *btapb.Table) Rows {
 	f.SetTableMeta(tbl)
+	verifPoint("disk.create.afterMeta", []byte(tbl.Name))
 	path := filepath.Join(f.Root, tbl.Name)
 	newFunc := func(nuke bool) *leveldb.DB {
 		return newDiskDb(path, nuke)
@@ -84,9 +85,11 @@ func (f LeveldbDiskStorage) Open(tbl *btapb.Table) Rows {
 // SetTableMeta persists metadata about a table.
 func (f LeveldbDiskStorage) SetTableMeta(tbl *btapb.Table) {
 	path := filepath.Join(f.Root, tbl.Name)
+	verifPoint("disk.meta.enter", []byte(tbl.Name))
 	if err := os.MkdirAll(path, 0777); err != nil {
 		f.errLog(err, "os.MkdirAll %q", path)
 	}
+	verifPoint("disk.meta.afterMkdir", []byte(tbl.Name))
 	buf, err := proto.Marshal(tbl)
 	if err != nil {
 		panic(err) // should not fail
@@ -98,11 +101,13 @@ func (f LeveldbDiskStorage) SetTableMeta(tbl *btapb.Table) {
 		f.errLog(err, "ioutil.WriteFile %q", tmpPath)
 		return
 	}
+	verifPoint("disk.meta.afterTmp", []byte(tbl.Name))
 
 	if err := os.Rename(tmpPath, outPath); err != nil {
 		f.errLog(err, "os.Rename %q -> %q", tmpPath, outPath)
 		return
 	}
+	verifPoint("disk.meta.afterRename", []byte(tbl.Name))
 }
 
 func (f LeveldbDiskStorage) errLog(err error, format string, args ...interface{}) {
@@ -116,6 +121,7 @@ var _ Storage = LeveldbDiskStorage{}
 func newDiskDb(path string, nuke bool) *leveldb.DB {
 	if nuke {
 		_ = os.RemoveAll(path)
+		verifPoint("disk.nuke.afterRemove", []byte(path))
 	}
 
 	db, err := leveldb.OpenFile(path, &opt.Options{
@@ -127,5 +133,6 @@ func newDiskDb(path string, nuke bool) *leveldb.DB {
 	if err != nil {
 		panic(err)
 	}
+	verifPoint("disk.open.afterOpen", []byte(path))
 	return db
 }
